@@ -249,6 +249,10 @@ func Edits(d *Dialect) []Edit {
 		{"col_default_many_digits", []string{"col:c"}, func(s *schema.Schema) {
 			C(T(s, "t"), "c").Default = &schema.Literal{V: "3.14159265358979"}
 		}, []string{mt("ModifyColumn(c)[default]")}},
+		// a numeric default spelled with an exponent (what SQLite reports for DEFAULT 1e3).
+		{"col_default_exponent", []string{"col:c"}, func(s *schema.Schema) {
+			C(T(s, "t"), "c").Default = &schema.Literal{V: "1e3"}
+		}, []string{mt("ModifyColumn(c)[default]")}},
 		{"col_null_and_default", []string{"col:d"}, func(s *schema.Schema) {
 			c := C(T(s, "t"), "d")
 			c.Type.Null = false
